@@ -270,6 +270,101 @@ func oracleC20(p *Pair, env *Env, a [][]byte) *Failure {
 	return nil
 }
 
+// sequences of invocations: a successful update from v1 to v2 (the installed file is the real v2 build), then, running
+// v2, a newer release that cannot be installed (checksum mismatch / asset unreachable / no checksum file): the failure
+// is reported and the executable stays the v2 build byte for byte; then an honest v3: it is installed.
+// args: kind of the failing step
+func oracleC20Seq(p *Pair, env *Env, a [][]byte) *Failure {
+	failKind := string(a[0])
+	fakeGhOnce.Do(func() { fakeGh, fakeGhErr = newFakeGitHub(env.scratch) })
+	if fakeGhErr != nil {
+		return &Failure{What: "harness: cannot start the fake release service", Detail: fakeGhErr.Error()}
+	}
+	var bins [][]byte
+	for _, v := range []string{"v4.1.0", "v4.2.0", "v4.4.0"} {
+		src, err := buildVersioned(env, v)
+		if err != nil {
+			return &Failure{What: "harness: cannot build versioned binary", Detail: err.Error()}
+		}
+		b, _ := os.ReadFile(src)
+		bins = append(bins, b)
+	}
+	verBuildMu.Lock()
+	defer verBuildMu.Unlock()
+	sb := mkSandbox(env)
+	defer os.RemoveAll(sb)
+	exe := filepath.Join(sb, "crs-toolchain")
+	_ = os.WriteFile(exe, bins[0], 0o755)
+	rel := func(id int64, tag string, payload []byte, checksum string, fail int) ghRelease {
+		name := "crs-toolchain_" + strings.TrimPrefix(tag, "v") + "_linux_amd64"
+		g := ghRelease{ID: id, Tag: tag}
+		as := ghAsset{ID: id + 1, Name: name, Bytes: payload, Fail: fail}
+		g.Assets = append(g.Assets, as)
+		switch checksum {
+		case "ok":
+			g.Assets = append(g.Assets, ghAsset{ID: id + 2, Name: "crs-toolchain-checksums.txt", Bytes: []byte(sha256hex(payload) + "  " + name + "\n")})
+		case "mismatch":
+			g.Assets = append(g.Assets, ghAsset{ID: id + 2, Name: "crs-toolchain-checksums.txt", Bytes: []byte(sha256hex([]byte("other")) + "  " + name + "\n")})
+		}
+		return g
+	}
+	run := func() (int, string) {
+		cmd := exec.Command(exe, "self-update")
+		cmd.Dir = sb
+		cmd.Env = append(os.Environ(), "HTTPS_PROXY="+fakeGh.proxyURL(), "https_proxy="+fakeGh.proxyURL(), "SSL_CERT_FILE="+fakeGh.caFile, "NO_PROXY=", "no_proxy=", "GITHUB_TOKEN=")
+		var out bytes.Buffer
+		cmd.Stdout, cmd.Stderr = &out, &out
+		err := cmd.Run()
+		exit := 0
+		if err != nil {
+			exit = 1
+			if ee, isExit := err.(*exec.ExitError); isExit {
+				exit = ee.ExitCode()
+			}
+		}
+		return exit, tail(out.String(), 800)
+	}
+	r2 := rel(110, "v4.2.0", bins[1], "ok", 0)
+	fakeGh.set([]ghRelease{r2}, 0)
+	if exit, out := run(); exit != 0 {
+		return &Failure{What: "self-update did not install the newer verified release (first step of a sequence)", Detail: fmt.Sprintf("exit %d\n%s", exit, out)}
+	}
+	if now, _ := os.ReadFile(exe); !bytes.Equal(now, bins[1]) {
+		return &Failure{What: "self-update installed other bytes than the platform asset of the newest release (first step of a sequence)"}
+	}
+	var r3 ghRelease
+	switch failKind {
+	case "mismatch":
+		r3 = rel(120, "v4.3.0", []byte("#!/bin/sh\necho tampered\n"), "mismatch", 0)
+	case "asset-unreachable":
+		r3 = rel(120, "v4.3.0", []byte("x"), "ok", 404)
+	default:
+		r3 = rel(120, "v4.3.0", []byte("#!/bin/sh\necho unverified\n"), "none", 0)
+	}
+	fakeGh.set([]ghRelease{r3, r2}, 0)
+	exit, out := run()
+	now, _ := os.ReadFile(exe)
+	if !bytes.Equal(now, bins[1]) {
+		what := "other bytes"
+		if bytes.Equal(now, bins[0]) {
+			what = "the OLDER build that an earlier update had replaced"
+		}
+		return &Failure{What: "a failing self-update after an earlier successful one changed the executable: it now holds " + what,
+			Detail: fmt.Sprintf("failing step: %s, exit %d\n%s", failKind, exit, out)}
+	}
+	if exit == 0 {
+		return &Failure{What: "self-update could not update but exits with status 0 (second step of a sequence)", Detail: out}
+	}
+	fakeGh.set([]ghRelease{rel(130, "v4.4.0", bins[2], "ok", 0), r3, r2}, 0)
+	if exit, out := run(); exit != 0 {
+		return &Failure{What: "self-update did not install the newer verified release (third step of a sequence)", Detail: fmt.Sprintf("exit %d\n%s", exit, out)}
+	}
+	if now, _ := os.ReadFile(exe); !bytes.Equal(now, bins[2]) {
+		return &Failure{What: "self-update installed other bytes than the platform asset of the newest release (third step of a sequence)"}
+	}
+	return nil
+}
+
 func genC20(r *rand.Rand, tier string, env *Env) []Case {
 	n := 14
 	if tier == "thorough" {
@@ -306,6 +401,9 @@ func genC20(r *rand.Rand, tier string, env *Env) []Case {
 	mk(c20Scenario{Running: "v2.1.0", Releases: []c20Release{{Tag: "v2.2.0", Platform: "linux_amd64", AssetKind: "raw", Checksum: "missing"},
 		{Tag: "v2.2.0-rc.1", Prerelease: true, Platform: "linux_amd64", AssetKind: "raw", Checksum: "ok"}, good}}, "newest-incomplete-prerelease-complete")
 	mk(c20Scenario{Running: "v2.1.0", Releases: []c20Release{{Tag: "v2.2.0", Platform: "linux_amd64", AssetKind: "raw", Checksum: "http-500"}, good}}, "newest-checksum-unreachable-equal-complete")
+	for _, k := range []string{"mismatch", "asset-unreachable", "no-checksum-file"} {
+		cases = append(cases, Case{Kind: "sequence-of-updates", Oracles: []Op{{"c20.sequence", [][]byte{[]byte(k)}}}})
+	}
 	for i := 0; i < n; i++ {
 		sc := c20Scenario{Running: pick(r, []string{"v1.5.0", "v0.0.0-dev", "v2.1.0", "v1.5.0", "v2.5.0-rc.1", "v2.0.1-next", "v1.5.1-beta"})}
 		k := r.Intn(4)
@@ -329,6 +427,7 @@ func genC20(r *rand.Rand, tier string, env *Env) []Case {
 
 func init() {
 	oracles["c20.selfupdate"] = oracleC20
+	oracles["c20.sequence"] = oracleC20Seq
 	properties["C20"] = &Property{ID: "C20", LeanMods: []string{"CrsProps.C20"}, Workers: 2,
 		Corr: "K11 (the binary, built from the working tree with a version stamp, against a local fake release service over HTTPS: installed bytes / unchanged / error)",
 		Rule: "17 named situations of the property (newer verified release, dev build, equal and older versions, checksum mismatch / for another file / missing / download failure, other platforms only, corrupt archive, HTTP errors, drafts and pre-releases) plus random catalogues of 0..3 releases x running versions; non-trivial = every scenario; distinct by scenario",
